@@ -40,11 +40,11 @@ def parseView (a : Args) : Option (Arr String) := do
   let d ← (a.get? "vdata").map toks
   if d.length == prod s then some (viewOf s d) else none
 
-def fresh (a : Args) (v : Arr String) : String :=
-  let r := evalFresh false v
-  let c := evalFresh true v
+def show2 (a : Args) (r c : NDA String) : String :=
   let col := if a.get? "col" == some "0" then "-" else fmtToks c.data
   s!"ok shape={fmtNats r.shape} data={fmtToks (logical r)} col={col}"
+
+def fresh (a : Args) (v : Arr String) : String := show2 a (evalFresh false v) (evalFresh true v)
 
 def handle : Handler := fun op a =>
   match op with
@@ -55,9 +55,9 @@ def handle : Handler := fun op a =>
       let h ← a.nat "has"
       -- `detail::eval` on nmtools_maybe<view>: Nothing stays Nothing, a value is evaluated
       let ov : Option (Arr String) ← if h == 0 then some none else (parseView a).map some
-      pure (match ov.map (fresh a) with
-        | none => "nothing"
-        | some r => r)
+      pure (match evalMaybe false ov, evalMaybe true ov with
+        | some r, some c => show2 a r c
+        | _, _ => "nothing")
   | "eval_into" => orBad do
       let v ← parseView a
       let os ← a.nats "oshape"
